@@ -692,9 +692,19 @@ def run(chk):
             seen.append((m.simTime.month, m.forc.deepTemp))     # month before the clock advances
             return orig()
         m.simTime.update_date = upd
-        with core.quiet():
-            m.simulate()
-        del m.simTime.update_date
+        try:
+            with core.quiet():
+                m.simulate()
+        except IndexError:
+            # unchanged tree, recorded in DESIGN 3.1: with droad <= 0.05 m the urban road that is simulated (UCM.road,
+            # known finding C20) has ONE layer and Element.Conduction stops with IndexError in the first step - fail-stop,
+            # nothing to judge for the deep temperature of later steps
+            if m.droad > 0.05 + 1e-12:
+                raise
+            chk.notes.append('deepTemp run with droad = %r m skipped: one-layer urban road, IndexError in the first '
+                             'conduction step (fail-stop of the unchanged tree)' % m.droad)
+        finally:
+            del m.simTime.update_date
         nsteps += len(seen)
         pav = 0.05 * max(int(math.ceil(m.droad / 0.05)), 1)
         want_idx = next((i for i, d in enumerate(depths_v) if d > pav - 1e-9), None)
